@@ -7,6 +7,7 @@
 (* _verify_key / _activate_outbound / _parse_newkeys on BOTH peers:                 *)
 (*   kc, ks, hc, hs, sidc, sids   K, H, session_id of client / server, interned     *)
 (*                                (equal integers <=> equal byte values, 0 = unset) *)
+(*   meth                         hash family of the kex method of this exchange    *)
 (*   c_set, s_set                 _set_K_H ran on the client / server               *)
 (*   c_newkeys_out, c_done        the client sent NEWKEYS / finished the exchange   *)
 (*   shown                        the host key blob handed to _verify_key           *)
@@ -42,7 +43,7 @@ TNext ==
                      \cup Clause(x.c_done /\ l = NX => R.remote_key = x.shown, "C_remote_key_is_not_the_shown_key")
                      \cup Clause(x.c_done /\ ~isAltered => x.shown = R.real, "C_shown_key_is_not_the_servers")
            \* the design spec's variables take the observed values
-           /\ n' = l - 1
+           /\ n' = l - 1 /\ meth' = x.meth /\ meths' = Append(meths, x.meth)
            /\ cst' = IF x.c_done THEN "done" ELSE IF x.c_set THEN "aborted" ELSE "init_sent"
            /\ sst' = IF x.s_set THEN "replied" ELSE "idle"
            /\ cK' = x.kc /\ cH' = x.hc /\ cSid' = x.sidc /\ cShown' = x.shown /\ cSig' = x.sigok
